@@ -192,8 +192,8 @@ package svg
 //@   ensures[C19 flush-first] ncalls("(*GraphicsPlatform).Push") == 1
 //@   ensures[C19 family] has_family ==> rt.textAttr.FontFamily == props["family"].(string)
 //@   ensures[C19 style] has_style ==> rt.textAttr.FontStyle == props["style"].(string)
-//@   ensures[C19 size] has_size ==> rt.textAttr.FontSize != nil && same(*rt.textAttr.FontSize, 10.0 * props["size"].(float64))
-//@   ensures[C19 weight] has_weight ==> rt.textAttr.FontWeight != nil && same(*rt.textAttr.FontWeight, props["weight"].(float64))
+//@   ensures[C19 size] has_size ==> rt.textAttr.FontSize != nil && fresh(rt.textAttr.FontSize) && same(*rt.textAttr.FontSize, 10.0 * props["size"].(float64))
+//@   ensures[C19 weight] has_weight ==> rt.textAttr.FontWeight != nil && fresh(rt.textAttr.FontWeight) && same(*rt.textAttr.FontWeight, props["weight"].(float64))
 //@   ensures[C19 baseline] has_baseline ==> (bl == "top" ==> rt.textAttr.Baseline == "hanging") && (bl == "middle" ==> rt.textAttr.Baseline == "middle") && (bl == "bottom" ==> rt.textAttr.Baseline == "ideographic") && (bl == "alphabetic" ==> rt.textAttr.Baseline == "alphabetic")
 //@   ensures[C19 align] has_align ==> (al == "left" ==> rt.textAttr.TextAnchor == "start") && (al == "right" ==> rt.textAttr.TextAnchor == "end") && (al == "center" ==> rt.textAttr.TextAnchor == "middle")
 //@   ensures[C19 absent-unchanged] (!has_family ==> rt.textAttr.FontFamily == old(rt.textAttr.FontFamily)) && (!has_style ==> rt.textAttr.FontStyle == old(rt.textAttr.FontStyle)) && (!has_baseline ==> rt.textAttr.Baseline == old(rt.textAttr.Baseline)) && (!has_align ==> rt.textAttr.TextAnchor == old(rt.textAttr.TextAnchor))
